@@ -18,13 +18,14 @@ pub fn check_time_windows(tws: &[Option<TimeWindow>], skip_intersection_check: b
             a.start <= a.end
         } else {
             tws.sort_by(|a, b| a.start.total_cmp(&b.start));
-            tws.windows(2).any(|pair| {
-                if let [a, b] = pair {
-                    a.start <= a.end && b.start <= b.end && (skip_intersection_check || !a.intersects(b))
-                } else {
-                    false
-                }
-            })
+            !tws.is_empty()
+                && tws.windows(2).all(|pair| {
+                    if let [a, b] = pair {
+                        a.start <= a.end && b.start <= b.end && (skip_intersection_check || !a.intersects(b))
+                    } else {
+                        false
+                    }
+                })
         }
     }
 }
